@@ -1,6 +1,6 @@
 //! Verification seams. Compiled only with `--cfg rre_verif`; never part of a normal build.
 //!
-//! The module holds two thread-local call-back slots (clock, file system) and thin shims
+//! The module holds three thread-local call-back slots (clock, file system, step counter) and thin shims
 //! with the same surface as the `std` items they stand in for. With no call-back installed
 //! on the current thread every shim forwards to the real `std` item, so a hooked build
 //! without a simulator behaves exactly like the shipped crate. The simulator itself is not
@@ -63,10 +63,12 @@ pub enum FsDecision {
 
 type ClockFn = Box<dyn FnMut(ClockKind) -> u64>;
 type FsFn = Box<dyn FnMut(&FsOp) -> FsDecision>;
+type StepFn = Box<dyn FnMut(&'static str)>;
 
 thread_local! {
     static CLOCK: RefCell<Option<ClockFn>> = const { RefCell::new(None) };
     static FS: RefCell<Option<FsFn>> = const { RefCell::new(None) };
+    static STEP: RefCell<Option<StepFn>> = const { RefCell::new(None) };
 }
 
 /// Install (or remove) the simulated clock of the current thread
@@ -77,6 +79,22 @@ pub fn set_clock(f: Option<ClockFn>) {
 /// Install (or remove) the simulated disk of the current thread
 pub fn set_fs(f: Option<FsFn>) {
     FS.with(|c| *c.borrow_mut() = f);
+}
+
+/// Install (or remove) the step counter of the current thread: it is told each time a search
+/// loop that touches neither clock nor disk goes round once, so that a simulator can bound a
+/// run by steps instead of by wall-clock time
+pub fn set_step(f: Option<StepFn>) {
+    STEP.with(|c| *c.borrow_mut() = f);
+}
+
+/// One turn of the loop named `site`; does nothing unless a step counter is installed
+pub fn step(site: &'static str) {
+    STEP.with(|c| {
+        if let Some(f) = c.borrow_mut().as_mut() {
+            f(site)
+        }
+    })
 }
 
 fn read_clock(kind: ClockKind) -> Option<u64> {
